@@ -8,10 +8,12 @@ from common import Stats, mix
 
 VERIF = common.VERIF
 REL = 1e-9
-SIGN_CHANGING = {"Fi": 1e-7, "Fii": 1e-7, "Refractive_Index_Re": 1e-12, "Refractive_Index": 1e-12, "Crystal_F_H_StructureFactor": 1e-7,
+# quantities that pass through zero (or are built from one that does): a small absolute term next to the relative tolerance.  FF_Rayl oscillates
+# around 0 at large q (e.g. FF_Rayl(82, 147.49) = -3.5e-4), the Rayleigh differential cross sections inherit that through F^2
+SIGN_CHANGING = {"FF_Rayl": 1e-9, "DCS_Rayl": 1e-14, "DCSb_Rayl": 1e-12, "DCS_Rayl_CP": 1e-14, "DCSb_Rayl_CP": 1e-12, "Fi": 1e-7, "Fii": 1e-7, "Refractive_Index_Re": 1e-12, "Refractive_Index": 1e-12, "Crystal_F_H_StructureFactor": 1e-7,
                  "Crystal_F_H_StructureFactor_Partial": 1e-7, "Atomic_Factors": 1e-7, "MomentTransf": 1e-12, "Q_scattering_amplitude": 1e-12,
-                 "DCSP_Rayl": 1e-15, "DCSP_Compt": 1e-15, "DCSPb_Rayl": 1e-13, "DCSPb_Compt": 1e-13, "DCSP_Thoms": 1e-15, "DCSP_KN": 1e-15,
-                 "DCSP_Rayl_CP": 1e-15, "DCSP_Compt_CP": 1e-15, "DCSPb_Rayl_CP": 1e-13, "DCSPb_Compt_CP": 1e-13}
+                 "DCSP_Rayl": 1e-14, "DCSP_Compt": 1e-15, "DCSPb_Rayl": 1e-12, "DCSPb_Compt": 1e-13, "DCSP_Thoms": 1e-15, "DCSP_KN": 1e-15,
+                 "DCSP_Rayl_CP": 1e-14, "DCSP_Compt_CP": 1e-15, "DCSPb_Rayl_CP": 1e-12, "DCSPb_Compt_CP": 1e-13}
 
 
 def build_java(ctx, b, tag):
